@@ -104,5 +104,5 @@ pub fn parts() -> Vec<Part> {
         Part { name: "corpus", genome_len: 16, cases_quick: 300, cases_thorough: 3000, threads: 12, max_shrink_iters: 60, check: Box::new(check_corpus), remote: None },
     ]
 }
-pub const RULE: &str = "synth: SynthFont (0-2 axes, empty / simple / composite / nested / mixed glyphs, transforms, vertical metrics, supplementary and multiple codepoints) with injected negative bearings (contours shifted left), zero advances and trailing runs of equal advances, x default or generated options; corpus: resources/testdata fixtures that compile. Oracle: recomputation from the emitted tables only (head bbox = union of glyph boxes, glyph header boxes vs points, hhea advanceWidthMax / minLSB / minRSB / xMaxExtent with either reading of 'glyphs with contours', numberOfHMetrics admissible, lsb == xMin when head says so, vhea advanceHeightMax, maxp maxima incl. composite totals / elements / depth, loca format vs glyf size and monotonicity, OS/2 xAvgCharWidth, first/last char index, bit 57, 18 single-block Unicode-range bits) plus hmtx advances vs the model. non-trivial = composite glyph and (negative bearings or trailing run); distinct = hash(model or fixture, options)";
+pub const RULE: &str = "synth: SynthFont (0-2 axes, empty / simple / composite / nested / mixed glyphs, transforms, vertical metrics, supplementary and multiple codepoints) with injected negative bearings (contours shifted left), zero advances and trailing runs of equal advances, in half of the cases feature code with up to four lookups that decide usMaxContext (ligature of 2-5 components, chaining substitution with 0-3 backtrack / lookahead glyphs, reverse chaining substitution, pair positioning), x default or generated options; corpus: resources/testdata fixtures that compile. Oracle: recomputation from the emitted tables only (head bbox = union of glyph boxes, glyph header boxes vs points, hhea advanceWidthMax / minLSB / minRSB / xMaxExtent with either reading of 'glyphs with contours', numberOfHMetrics admissible, lsb == xMin when head says so, vhea advanceHeightMax, maxp maxima incl. composite totals / elements / depth, loca format vs glyf size and monotonicity, OS/2 xAvgCharWidth, first/last char index, bit 57, 18 single-block Unicode-range bits) plus hmtx advances vs the model. non-trivial = composite glyph and (negative bearings or trailing run); distinct = hash(model or fixture, options)";
 pub const ASSUMPTIONS: &[&str] = &["where the specification leaves a choice (composite of empty glyphs counting as 'with contours', non-minimal numberOfHMetrics, rounding vs truncation of the average width) every admissible value is accepted", "code-page bits and usMaxContext with layout tables are checked by the layout-aware part once the layout interpreter is linked (usMaxContext must be 0 without layout tables)"];
